@@ -297,6 +297,8 @@ def c11(res):
             return sym_cfgs(rng, g)
         c = std_cfgs(threads)
         c += [x for x in all_strategy_cfgs(rng, i, g, [1]) if x["strategy"] == "sim"]
+        # depth limits: a state whose successors are cut off by the limit is NOT the end of a maximal path
+        c += [gg.base_cfg(s_, 1, target_depth=rng.randint(2, 5)) for s_ in ("bfs", "dfs", "ondemand")]
         return c
     res.rule = ("graphs with eventually-properties: general graphs (soundness: a reported counterexample implies a maximal "
                 "in-boundary non-satisfying path exists, EvCex) and forests (exactness) x all strategies incl. simulation "
